@@ -1,0 +1,20 @@
+//go:build verif
+
+// Contracts for the verification machinery in /verif (comment only, no code).
+package placement
+
+//@ spec abstract forced(a *objects.Application) bool
+
+// placement: a rule whose queue is refused leaves no candidate behind (the name is reset before the next rule, so an
+// exhausted rule list always ends in a rejection); the recovery queue is only handed to force-created applications;
+// a rejected application has no queue path
+//@ func (m *AppPlacementManager) PlaceApplication(app *objects.Application) (err error)
+//@   props C17
+//@   sweep
+//@   mode nopanic=off
+//@   loop 1: invariant queueName == ""
+//@   at[forced] call objects.Application.IsCreateForced#1 after: assume ret == forced(app)
+//@   at[recoveryonlyforced] call objects.Application.SetQueuePath#3: assert arg0 == app && arg1 == queueName && queueName != "" && (queueName != common.RecoveryQueueFull || forced(app))
+//@   at[rejectclears] call objects.Application.SetQueuePath#2: assert arg0 == app && arg1 == "" && queueName == ""
+//@   at[errorclears] call objects.Application.SetQueuePath#1: assert arg0 == app && arg1 == ""
+//@   ensures[rejected] err != nil ==> app.queuePath == ""
